@@ -11,16 +11,26 @@ def one(sid):
     d = os.path.join(VERIF, "seeded", sid)
     meta = json.load(open(os.path.join(d, "meta.json")))
     c = meta["property"]
-    wt, wk = "/tmp/sr-" + sid, "/tmp/srw-" + sid
+    wt, wk, snap = "/tmp/sr-" + sid, "/tmp/srw-" + sid, "/tmp/srs-" + sid
     subprocess.run("git -C /repo worktree remove --force %s" % wt, shell=True, stdout=subprocess.DEVNULL, stderr=subprocess.DEVNULL)
     shutil.rmtree(wk, ignore_errors=True)
     subprocess.run("git -C /repo worktree add -q --detach %s HEAD" % wt, shell=True, check=True)
+    # the machinery runs from a snapshot of /verif (editing /verif meanwhile does not disturb the run);
+    # model results are shared through the cache, which is keyed by the content of spec/
+    shutil.rmtree(snap, ignore_errors=True)
+    os.makedirs(snap)
+    for item in ("check", "tools", "spec", "harness", "KNOWN_FINDINGS.txt"):
+        src = os.path.join(VERIF, item)
+        if os.path.isdir(src):
+            shutil.copytree(src, os.path.join(snap, item), ignore=shutil.ignore_patterns("target*", "__pycache__", "states"))
+        else:
+            shutil.copy2(src, os.path.join(snap, item))
     try:
         subprocess.run("git apply %s" % os.path.join(d, "patch.diff"), shell=True, cwd=wt, check=True)
-        env = dict(os.environ, VERIF_REPO=wt, VERIF_WORK=wk, VERIF_EVID=os.path.join(wk, "evidence"), VERIF_REPLAY=os.path.join(wk, "replay"))
+        env = dict(os.environ, VERIF_REPO=wt, VERIF_WORK=wk, VERIF_EVID=os.path.join(wk, "evidence"), VERIF_REPLAY=os.path.join(wk, "replay"), VERIF_CACHE=os.path.join(VERIF, "work", "cache"))
         t0 = time.time()
         try:
-            p = subprocess.run(["./check", c, "quick"], cwd=VERIF, env=env, stdout=subprocess.PIPE, stderr=subprocess.STDOUT, timeout=3600)
+            p = subprocess.run(["./check", c, "quick"], cwd=snap, env=env, stdout=subprocess.PIPE, stderr=subprocess.STDOUT, timeout=3600)
             out, rc = p.stdout.decode(errors="replace"), p.returncode
         except subprocess.TimeoutExpired:
             out, rc = "TIMEOUT", 124
@@ -35,6 +45,7 @@ def one(sid):
         subprocess.run("git -C /repo worktree remove --force %s" % wt, shell=True, stdout=subprocess.DEVNULL, stderr=subprocess.DEVNULL)
         shutil.rmtree(wt, ignore_errors=True)
         shutil.rmtree(wk, ignore_errors=True)
+        shutil.rmtree(snap, ignore_errors=True)
 
 def main():
     a = sys.argv[1:]
